@@ -316,6 +316,23 @@ impl HttpClient {
         Ok(buffer)
     }
 
+    /// Read the whole response body, then parse it as JSON.
+    ///
+    /// Parsing straight from the connection would read again after a failed
+    /// read (once per open JSON object or array), so a server that stalls in
+    /// the middle of the body would cost several read timeouts instead of one.
+    fn read_json<T: DeserializeOwned>(response: ureq::Response) -> GDResult<T> {
+        let mut body: Vec<u8> = Vec::new();
+
+        response
+            .into_reader()
+            .take(MAX_RESPONSE_LENGTH as u64)
+            .read_to_end(&mut body)
+            .map_err(|e| PacketReceive.context(e))?;
+
+        serde_json::from_slice(&body).map_err(|e| ProtocolFormat.context(e))
+    }
+
     /// Send a HTTP request without any data and parse the JSON response.
     #[inline]
     fn request_json<T: DeserializeOwned>(&mut self, method: &str, path: &str, headers: HttpHeaders) -> GDResult<T> {
@@ -326,9 +343,8 @@ impl HttpClient {
         // Send the request and parse the response as JSON.
         request
             .call()
-            .map_err(|e| PacketSend.context(e))?
-            .into_json::<T>()
-            .map_err(|e| ProtocolFormat.context(e))
+            .map_err(|e| PacketSend.context(e))
+            .and_then(Self::read_json)
     }
 
     /// Send a HTTP request with JSON data and parse the JSON response.
@@ -345,9 +361,8 @@ impl HttpClient {
 
         request
             .send_json(data)
-            .map_err(|e| PacketSend.context(e))?
-            .into_json::<T>()
-            .map_err(|e| ProtocolFormat.context(e))
+            .map_err(|e| PacketSend.context(e))
+            .and_then(Self::read_json)
     }
 
     /// Send a HTTP request with FORM data and parse the JSON response.
@@ -364,9 +379,8 @@ impl HttpClient {
 
         request
             .send_form(data)
-            .map_err(|e| PacketSend.context(e))?
-            .into_json::<T>()
-            .map_err(|e| ProtocolFormat.context(e))
+            .map_err(|e| PacketSend.context(e))
+            .and_then(Self::read_json)
     }
 }
 
